@@ -63,6 +63,7 @@ struct GenCtx {
   int budget = 0;                  // statements left for this routine
   bool in_ite = false;
   int jl_serial = 0;
+  int label_rot = 0;
   std::string last_var;
   int in_slot = 0;   // inside text that a user macro must match as a slot (<V>, <P>, <ARGS>)
 };
@@ -162,6 +163,14 @@ Val gen_val(GenCtx &c, int depth) {
   return v;
 }
 
+std::string label_name(GenCtx &c, int i) {
+  if (c.gp.label_names == 1) {
+    static const char *POOL[] = {"a", "a1", "a11", "a2", "a12", "a10", "a0", "a01", "a21", "a112"};
+    return POOL[(size_t)(i + c.label_rot) % 10];
+  }
+  return "l" + std::to_string(i);
+}
+
 std::string plan_label(GenCtx &c) {
   if (c.nlabels == 0 || (c.nlabels < 4 && c.rng.chance(1, 3))) {
     c.label_used.push_back(0);
@@ -169,7 +178,7 @@ std::string plan_label(GenCtx &c) {
   }
   int i = (int)c.rng.below(c.nlabels);
   c.label_used[i]++;
-  return "l" + std::to_string(i);
+  return label_name(c, i);
 }
 
 std::vector<Stmt> gen_block(GenCtx &c, int depth, int maxn);
@@ -252,7 +261,7 @@ void place_labels(GenCtx &c, std::vector<Stmt> &body) {
   std::vector<const Stmt *> path;
   collect(body, all, path);
   for (int l = 0; l < c.nlabels; l++) {
-    std::string name = "l" + std::to_string(l);
+    std::string name = label_name(c, l);
     // first statement that jumps to it, to bias unconditional jumps forward
     int first_ref = -1; bool uncond = false;
     for (size_t i = 0; i < all.size(); i++)
@@ -291,7 +300,7 @@ void place_labels(GenCtx &c, std::vector<Stmt> &body) {
 }
 
 std::vector<Stmt> gen_routine_body(GenCtx &c, int maxn) {
-  c.nlabels = 0; c.label_used.clear();
+  c.nlabels = 0; c.label_used.clear(); c.label_rot = c.gp.label_names ? (int)c.rng.below(10) : 0;
   c.budget = c.gp.max_stmts;
   std::vector<Stmt> body = gen_block(c, 0, maxn);
   if (c.gp.jump_into_loop > 0 && (int)c.rng.below(100) < c.gp.jump_into_loop) {
@@ -372,7 +381,7 @@ Ast generate_ast(Rng &rng, const GenParams &gp) {
     a.defs.push_back(add); a.defs.push_back(mul);
   }
   const int arith_defs = (int)a.defs.size();
-  int ndefs = arith_defs + (int)rng.range(0, gp.max_defs);
+  int ndefs = arith_defs + (int)rng.range(std::min(gp.min_defs, gp.max_defs), gp.max_defs);
   if (gp.call_heavy && ndefs == 0) ndefs = 1;
   for (int i = arith_defs; i < ndefs; i++) {
     Routine r;
